@@ -335,6 +335,9 @@ func GenC03(seed uint64, run int) *Trace {
 		}
 		spec.NullPad = 0
 	}
+	if r.Chance(1, 10) {
+		spec.HeaderEnc = r.Range(1, 2) // a header that is accepted but not what the library itself writes
+	}
 	opts := ReadOpts{StoreID: r.Chance(1, 2)}
 	if r.Chance(1, 5) {
 		opts.MaxIdxCid = Pick(r, []uint64{40, 40, 40, 40, 1 << 63, ^uint64(0)})
